@@ -435,6 +435,10 @@ func checkC18(ctx *Ctx, r *Report) {
 	c18ValueCopierTotal(ctx, r)
 	c18EqualEquatesEmpty(ctx, r)
 	checkProcessCopiesFirst(ctx, r, "copycheck/use")
+	c18LiteralsShareSlices(ctx, r)
+	c18LiteralsShareSlicesSelfTest(ctx, r)
+	c18NilnessOfCollections(ctx, r)
+	c18NilnessSelfTest(ctx, r)
 }
 
 // c18IRCopies runs the copy analysis over the DeepCopy methods of the IR: the properties that rest on "each language /
@@ -1175,7 +1179,9 @@ func c18ValueCopierTotal(ctx *Ctx, r *Report) {
 	for _, want := range []struct {
 		t    types.Type
 		name string
-	}{{types.NewSlice(anyT), "[]any"}, {types.NewMap(types.Typ[types.String], anyT), "map[string]any"}} {
+		// (map[any]any: what yaml.v3 gives for a mapping whose keys are not all strings — hints and defaults set by the
+		// compiler-passes configuration are decoded by it)
+	}{{types.NewSlice(anyT), "[]any"}, {types.NewMap(types.Typ[types.String], anyT), "map[string]any"}, {types.NewMap(anyT, anyT), "map[any]any"}} {
 		r.Check(has(want.t), "copycheck/value-copier-total", "deepCopyValue case "+want.name, fd.Pos(), "lists / objects decoded from JSON, YAML or CUE are copied element by element",
 			"deepCopyValue has no case for "+want.name+": an array or object default (`[\"a\",\"b\"]`) stays shared between a copy and its original")
 	}
@@ -1265,4 +1271,181 @@ func c18EqualEquatesEmpty(ctx *Ctx, r *Report) {
 	})
 	r.Count("deep comparisons in Object.Equal", n)
 	r.Floor("deep comparisons in Object.Equal", 2)
+}
+
+// c18LiteralsShareSlices: a builder or option assembled from another one (compose, unfold_boolean, …) is a copy of it
+// as far as the rules that run afterwards are concerned: a slice or map field taken as is from the source
+// (`Properties: sourceBuilder.Properties`) is the source's own array, and a rule applied to the copy (properties,
+// add_comments, …) appends into it. Every slice / map field of a ast.Builder or ast.Option literal whose value comes
+// from another builder or option goes through a copy (a call).
+func c18LiteralsShareSlices(ctx *Ctx, r *Report) {
+	optT := ctx.LookupType("internal/ast", "Option")
+	bldT := ctx.LookupType("internal/ast", "Builder")
+	if optT == nil || bldT == nil {
+		// (the built-in examples only import the package)
+		for _, p := range ctx.Pkgs {
+			for _, imp := range p.Types.Imports() {
+				if imp.Path() == astPkgPath {
+					if o, ok := imp.Scope().Lookup("Option").(*types.TypeName); ok {
+						optT, _ = o.Type().(*types.Named)
+					}
+					if o, ok := imp.Scope().Lookup("Builder").(*types.TypeName); ok {
+						bldT, _ = o.Type().(*types.Named)
+					}
+				}
+			}
+		}
+	}
+	if optT == nil || bldT == nil {
+		r.Undecided("anchor lost: ast.Option / ast.Builder")
+		return
+	}
+	n := 0
+	for _, rel := range veneerPkgs {
+		p := ctx.Pkg(rel)
+		if p == nil {
+			continue
+		}
+		info := p.TypesInfo
+		for _, file := range p.Syntax {
+			var fname string
+			seen := map[string]int{}
+			ast.Inspect(file, func(m ast.Node) bool {
+				if d, ok := m.(*ast.FuncDecl); ok {
+					fname = d.Name.Name
+				}
+				cl, ok := m.(*ast.CompositeLit)
+				if !ok {
+					return true
+				}
+				nt := namedOf(info.TypeOf(cl))
+				if nt == nil || (nt != optT && nt != bldT) {
+					return true
+				}
+				for _, el := range cl.Elts {
+					kv, ok := el.(*ast.KeyValueExpr)
+					if !ok {
+						continue
+					}
+					sel, ok := ast.Unparen(kv.Value).(*ast.SelectorExpr)
+					if !ok {
+						continue
+					}
+					switch info.TypeOf(sel).Underlying().(type) {
+					case *types.Slice, *types.Map:
+					default:
+						continue
+					}
+					src := namedOf(info.TypeOf(sel.X))
+					if src == nil || (src != optT && src != bldT) {
+						continue
+					}
+					n++
+					key := fmt.Sprintf("%s.%s literal takes %s", p.Types.Name(), fname, exprString(sel))
+					seen[key]++
+					if seen[key] > 1 {
+						key = fmt.Sprintf("%s #%d", key, seen[key])
+					}
+					r.Bad("copycheck/literal-shares-slices", key, kv.Pos(),
+						fmt.Sprintf("%s.%s builds a %s whose %s is %s, the very array of the %s it is made from: a rule applied later to either of them (properties, add_comments, …) appends into the array both hold — the property added to the composed builder replaces the one added to the source builder", p.Types.Name(), fname, nt.Obj().Name(), exprString(kv.Key), exprString(sel), src.Obj().Name()))
+				}
+				return true
+			})
+		}
+	}
+	r.Count("slice fields of builder / option literals taken from another builder / option", n)
+	if n == 0 {
+		r.OK("copycheck/literal-shares-slices", "veneer packages", token.NoPos, "no builder or option literal takes a slice or map of another one as is")
+	}
+}
+
+func c18LiteralsShareSlicesSelfTest(ctx *Ctx, r *Report) {
+	run := func(c *Ctx, rr *Report) {
+		saved := veneerPkgs
+		veneerPkgs = nil
+		for _, p := range c.Pkgs {
+			veneerPkgs = append(veneerPkgs, strings.TrimPrefix(p.PkgPath, modulePath+"/"))
+		}
+		c18LiteralsShareSlices(c, rr)
+		veneerPkgs = saved
+	}
+	selfTest(ctx, r, "copycheck/literal-shares-slices", "literal_shares_properties", true, `package fx
+import "github.com/grafana/cog/internal/ast"
+func compose(source ast.Builder) ast.Builder {
+	return ast.Builder{Name: source.Name, Properties: source.Properties}
+}`, run)
+	selfTest(ctx, r, "copycheck/literal-shares-slices", "literal_copies_properties", false, `package fx
+import "github.com/grafana/cog/internal/ast"
+func compose(source ast.Builder) ast.Builder {
+	return ast.Builder{Name: source.Name, Properties: append([]ast.StructField(nil), source.Properties...)}
+}`, run)
+}
+
+// c18NilnessOfCollections: the copies of the IR do not promise to keep a nil list or map nil (several DeepCopy methods
+// `make` their result) and every chain of passes starts with a copy: code that tells a nil collection of an IR node from
+// an empty one behaves differently on a schema and on its copy. Outside internal/ast, no slice- or map-typed field of an
+// IR struct is compared with nil (`len(x) == 0` is the test that a copy preserves).
+func c18NilnessOfCollections(ctx *Ctx, r *Report) {
+	n := 0
+	for _, p := range ctx.Pkgs {
+		if p.PkgPath == astPkgPath || p.TypesInfo == nil {
+			continue
+		}
+		info := p.TypesInfo
+		for _, file := range p.Syntax {
+			var fname string
+			ast.Inspect(file, func(m ast.Node) bool {
+				if d, ok := m.(*ast.FuncDecl); ok {
+					fname = d.Name.Name
+				}
+				be, ok := m.(*ast.BinaryExpr)
+				if !ok || (be.Op != token.EQL && be.Op != token.NEQ) {
+					return true
+				}
+				var side ast.Expr
+				switch {
+				case exprString(be.Y) == "nil":
+					side = be.X
+				case exprString(be.X) == "nil":
+					side = be.Y
+				default:
+					return true
+				}
+				sel, ok := ast.Unparen(side).(*ast.SelectorExpr)
+				if !ok {
+					return true
+				}
+				f := fieldOf(info, sel)
+				if f == nil || f.Pkg() == nil || f.Pkg().Path() != astPkgPath {
+					return true
+				}
+				switch f.Type().Underlying().(type) {
+				case *types.Slice, *types.Map:
+				default:
+					return true
+				}
+				n++
+				r.Bad("copycheck/nilness-of-collections", fmt.Sprintf("%s.%s compares %s with nil", p.Types.Name(), fname, exprString(sel)), be.Pos(),
+					fmt.Sprintf("%s.%s tells a nil %s from an empty one: a copy of the IR does not keep that difference (DeepCopy allocates), and every chain of passes starts with a copy — the code generated from a schema and from its copy differ (Python: `decoding_map_pet_union: dict[str, typing.Union[]] = {}`, a SyntaxError, for a union with a discriminator and no mapping)", p.Types.Name(), fname, exprString(sel)))
+				return true
+			})
+		}
+	}
+	r.Count("IR collections compared with nil outside internal/ast", n)
+	if n == 0 {
+		r.OK("copycheck/nilness-of-collections", "packages using the IR", token.NoPos, "no slice or map field of an IR node is compared with nil")
+	}
+}
+
+func c18NilnessSelfTest(ctx *Ctx, r *Report) {
+	selfTest(ctx, r, "copycheck/nilness-of-collections", "mapping_compared_with_nil", true, `package fx
+import "github.com/grafana/cog/internal/ast"
+func plain(d ast.DisjunctionType) bool {
+	return d.Discriminator == "" || d.DiscriminatorMapping == nil
+}`, c18NilnessOfCollections)
+	selfTest(ctx, r, "copycheck/nilness-of-collections", "mapping_length_tested", false, `package fx
+import "github.com/grafana/cog/internal/ast"
+func plain(d ast.DisjunctionType) bool {
+	return d.Discriminator == "" || len(d.DiscriminatorMapping) == 0
+}`, c18NilnessOfCollections)
 }
